@@ -5,8 +5,16 @@ Regenerated from /repo's working tree on every run:
     feature gating each entry, and the shape of the retried IRI (`format!("{iri}.{ext}")`);
   * the `ctype` suffix table (suffix, content type, gating feature) and its default;
   * whether `get` carries the confinement guard of notes/fixes/C19-confine.diff (rejecting remainders
-    with a `..`/root/prefix component).  Any *other* use of `components()` in `get` is not understood
-    and fails the extraction.
+    with a `..`/root/prefix component), recognised structurally: `<v>.components().any(|c| matches!(c, ALTS))`
+    on the remainder `Path::new(&iri[ns.len()..])`, before the `join`/`read`, followed by `return Err(`;
+    ALTS in any order, `Prefix(_)` optional (it cannot occur on unix), or the complementary white list
+    `!matches!(c, Normal(_) | CurDir)`.  Any *other* use of `components()` in `get` is not understood and
+    fails the extraction (the model would not mirror it);
+  * `cfg(not(..))` code in _local.rs (compiled out of the harness build, which enables every feature) fails
+    the extraction;
+  * LoaderSites.lean: every file-system / process / network call site of the whole `sophia_resource` crate
+    (test modules excluded), as (file, token, count) — the theorems about `get` speak for the crate only if
+    `get` is the one place that touches the file system (`SophiaProofs.C19.reads_only_in_get`).
 `read`, `ExtractError`, `HEADER` are injected by tools/extract.py.
 """
 import re
@@ -43,10 +51,58 @@ def _fn_body(text, header_re, what):
     raise ExtractError("%s: unbalanced braces in %s" % (REL, what))  # noqa: F821
 
 
-GUARD_RE = re.compile(
-    r"if\s+subpath\s*\.components\(\)\s*\.any\(\|c\|\s*\{?\s*matches!\(\s*c\s*,\s*"
-    r"Component::ParentDir\s*\|\s*Component::RootDir\s*\|\s*Component::Prefix\(_\)\s*,?\s*\)\s*\}?\s*\)\s*"
-    r"\{\s*return\s+Err\(\s*LoaderError::UnsupportedIri\(")
+def _balanced(text, i):
+    """text[i] == '(' -> index just after the matching ')'"""
+    depth = 0
+    for j in range(i, len(text)):
+        if text[j] == "(":
+            depth += 1
+        elif text[j] == ")":
+            depth -= 1
+            if depth == 0:
+                return j + 1
+    raise ExtractError("%s: unbalanced parentheses in get" % REL)  # noqa: F821
+
+
+def _guard(get):
+    """-> True (guard present), False (no trace of one); raises when `get` looks at path components in
+    any way the model's `safeRem` does not mirror"""
+    m = re.search(r"(\w+)\s*\.components\(\)\s*\.any\(", get)
+    if not m:
+        if "components" in get or "canonicalize" in get or "Component" in get:
+            raise ExtractError("%s: get uses path components in a way the model does not know" % REL)  # noqa: F821
+        return False
+    var = m.group(1)
+    if not re.search(r"let\s+%s\s*=\s*Path::new\(&iri\[ns\.len\(\)\.\.\]\)" % re.escape(var), get[:m.start()]):
+        raise ExtractError("%s: the guard does not inspect Path::new(&iri[ns.len()..])" % REL)  # noqa: F821
+    end = _balanced(get, m.end() - 1)
+    arg = re.sub(r"\s+", " ", get[m.end():end - 1]).strip()
+    c = re.fullmatch(r"\|(\w+)\| \{? ?(!?) ?matches!\( ?(\w+) ?, ?(.*?),? ?\) ?\}?", arg)
+    if not c or c.group(1) != c.group(3):
+        raise ExtractError("%s: guard closure is not `|c| matches!(c, ..)`: %r" % (REL, arg))  # noqa: F821
+    alts = set()
+    for a in c.group(4).split("|"):
+        a = a.strip()
+        a = a[len("Component::"):] if a.startswith("Component::") else a
+        a = a[:-3] if a.endswith("(_)") else a
+        if a not in ("ParentDir", "RootDir", "Prefix", "Normal", "CurDir"):
+            raise ExtractError("%s: guard pattern %r not understood" % (REL, a))  # noqa: F821
+        alts.add(a)
+    rejected = ({"ParentDir", "RootDir", "Prefix", "Normal", "CurDir"} - alts) if c.group(2) else alts
+    if rejected - {"Prefix"} != {"ParentDir", "RootDir"}:
+        raise ExtractError("%s: guard rejects components %s, the model's guard rejects ParentDir, RootDir"  # noqa: F821
+                           % (REL, sorted(rejected)))
+    if not re.match(r"\s*\{\s*return\s+Err\(", get[end:]):
+        raise ExtractError("%s: guard is not followed by `{ return Err(`" % REL)  # noqa: F821
+    if not re.search(r"\bif\s+$", get[:m.start()]):
+        raise ExtractError("%s: guard is not the condition of an `if`" % REL)  # noqa: F821
+    rest = get[end:]
+    before = get[:m.start()]
+    if ".join(" in before or re.search(r"\bread\(", before):
+        raise ExtractError("%s: the guard comes after the join/read" % REL)  # noqa: F821
+    if get.count(".components()") != 1 or ".join(" not in rest:
+        raise ExtractError("%s: get uses path components in a way the model does not know" % REL)  # noqa: F821
+    return True
 
 
 def extract_loader(repo):
@@ -76,12 +132,9 @@ def extract_loader(repo):
     if not re.search(r'Iri::new_unchecked\(format!\("\{iri\}\.\{ext\}"\)\)', get):
         raise ExtractError("%s: retried IRI is no longer format!(\"{iri}.{ext}\")" % REL)  # noqa: F821
     # --- confinement guard
-    if GUARD_RE.search(get):
-        guard = True
-    elif "components" in get or "canonicalize" in get or "Component" in get:
-        raise ExtractError("%s: get uses path components in a way the model does not know" % REL)  # noqa: F821
-    else:
-        guard = False
+    guard = _guard(get)
+    if re.search(r"cfg!?\(\s*not\s*\(", text):
+        raise ExtractError("%s: cfg(not(..)) code is compiled out of the harness build (all features on)" % REL)  # noqa: F821
     # --- ctype table
     ct = _fn_body(text, r"fn\s+ctype\(&self,\s*iri:\s*&str\)\s*->\s*String\s*\{", "LocalLoader::ctype")
     norm = re.sub(r"\s+", " ", ct).strip()
@@ -115,4 +168,109 @@ def extract_loader(repo):
     return "".join(out), {"exts": exts, "ctypes": rows, "guard": guard}
 
 
-EXTRACTORS = {"loader_exts": ("LoaderExts.lean", extract_loader)}
+# ------------------------------------------------------------------ file-system call sites of the crate
+
+SITE_RE = re.compile(
+    r"\b(?:std\s*::\s*)?fs\s*::\s*\w+|\bFile\s*::\s*\w+|\bOpenOptions\b|\bread_to_string\b|\bread_to_end\b|\bread_dir\b"
+    r"|\bread_link\b|\bcanonicalize\b|\bsymlink_metadata\b|\bmetadata\s*\(|\.\s*is_dir\s*\(|\.\s*is_file\s*\(|\.\s*is_symlink\s*\("
+    r"|\.\s*exists\s*\(|\.\s*try_exists\s*\(|\bread\s*\(|\binclude_(?:str|bytes)\s*!|\bstd\s*::\s*process\b|\bCommand\s*::\s*\w+"
+    r"|\bmmap\w*|\bstd\s*::\s*net\b|\bTcpStream\b|\bstd\s*::\s*os\b|\blibc\s*::|\bextern\s+\"C\"|\bunsafe\b")
+
+
+def _strip(text):
+    """Rust source without comments and with string literals emptied"""
+    out = []
+    i, n = 0, len(text)
+    while i < n:
+        c = text[i]
+        if text.startswith("//", i):
+            j = text.find("\n", i)
+            i = n if j < 0 else j
+        elif text.startswith("/*", i):
+            depth, i = 1, i + 2
+            while i < n and depth:
+                if text.startswith("/*", i):
+                    depth, i = depth + 1, i + 2
+                elif text.startswith("*/", i):
+                    depth, i = depth - 1, i + 2
+                else:
+                    i += 1
+        elif c == "r" and re.match(r'r#*"', text[i:]) and (i == 0 or not (text[i - 1].isalnum() or text[i - 1] == "_")):
+            h = re.match(r'r(#*)"', text[i:]).group(1)
+            j = text.find('"' + h, i + 2 + len(h))
+            if j < 0:
+                raise ExtractError("unterminated raw string")  # noqa: F821
+            out.append('""')
+            i = j + 1 + len(h)
+        elif c == '"':
+            i += 1
+            while i < n and text[i] != '"':
+                i += 2 if text[i] == "\\" else 1
+            out.append('""')
+            i += 1
+        else:
+            out.append(c)
+            i += 1
+    return "".join(out)
+
+
+def extract_sites(repo):
+    import os
+    root = os.path.join(repo, "resource", "src")
+    files = []
+    for d, _, fs in os.walk(root):
+        for f in fs:
+            if f.endswith(".rs"):
+                files.append(os.path.relpath(os.path.join(d, f), root))
+    if "loader/_local.rs" not in files or "loader/_trait.rs" not in files:
+        raise ExtractError("resource/src: loader/_local.rs or loader/_trait.rs missing")  # noqa: F821
+    sites = []
+    for f in sorted(files):
+        text = read(repo, "resource/src/" + f)  # noqa: F821
+        if os.path.basename(f) == "test.rs":
+            # test modules must be declared `#[cfg(test)] mod test;` by their parent
+            parent = os.path.dirname(f)
+            ptext = read(repo, "resource/src/" + (parent + ".rs" if parent else "lib.rs"))  # noqa: F821
+            if not re.search(r"#\[cfg\(test\)\]\s*mod\s+test\s*;", ptext):
+                raise ExtractError("resource/src/%s is not a #[cfg(test)] module" % f)  # noqa: F821
+            continue
+        code = _strip(text)
+        # inline `#[cfg(test)] mod x { .. }` blocks are not part of the library
+        while True:
+            tm = re.search(r"#\[cfg\(test\)\]\s*mod\s+\w+\s*\{", code)
+            if not tm:
+                break
+            depth, j = 0, tm.end() - 1
+            while j < len(code):
+                depth += {"{": 1, "}": -1}.get(code[j], 0)
+                j += 1
+                if depth == 0:
+                    break
+            code = code[:tm.start()] + code[j:]
+        counts = {}
+        for m in SITE_RE.finditer(code):
+            t = re.sub(r"\s+", "", m.group(0))
+            counts[t] = counts.get(t, 0) + 1
+        for t in sorted(counts):
+            sites.append((f, t, counts[t]))
+    local = _strip(read(repo, REL))  # noqa: F821
+    get = _fn_body(local, r"fn\s+get<T:\s*Borrow<str>>\(&self,\s*iri:\s*Iri<T>\)[^{]*\{", "LocalLoader::get")
+    in_get = len(re.findall(r"\bread\s*\(", get))
+    for f, t, _ in sites:
+        for ch in f + t:
+            if ch in '"\\' or ord(ch) < 32 or ord(ch) > 126:
+                raise ExtractError("unexpected character in site %r %r" % (f, t))  # noqa: F821
+    out = [HEADER,  # noqa: F821
+           "namespace SophiaModel.Gen.LoaderSites\n\n",
+           "/-- every file-system / process / network / unsafe token in resource/src (comments, strings and\n"
+           "`#[cfg(test)] mod test` files excluded): (file, token, occurrences) -/\n",
+           "def sites : List (String × String × Nat) :=\n  [" +
+           ",\n   ".join('("%s", "%s", %d)' % x for x in sites) + "]\n\n",
+           "/-- calls of `read(..)` inside the body of `LocalLoader::get` -/\n",
+           "def readCallsInGet : Nat := %d\n\n" % in_get,
+           "end SophiaModel.Gen.LoaderSites\n"]
+    return "".join(out), {"sites": sites, "read_in_get": in_get}
+
+
+EXTRACTORS = {"loader_exts": ("LoaderExts.lean", extract_loader),
+              "loader_sites": ("LoaderSites.lean", extract_sites)}
